@@ -175,6 +175,13 @@ func ConstInt(v ssa.Value) (int64, bool) {
 		i, ok := constant.Int64Val(c.Value)
 		return i, ok
 	}
+	// a boolean flag word (atomic.Bool): false / true are its 0 / 1
+	if c, ok := v.(*ssa.Const); ok && c.Value != nil && c.Value.Kind() == constant.Bool {
+		if constant.BoolVal(c.Value) {
+			return 1, true
+		}
+		return 0, true
+	}
 	return 0, false
 }
 
@@ -294,60 +301,95 @@ func AtomicAccessor(f *ssa.Function) bool {
 
 func atomicAccessor(f *ssa.Function) *accessorInfo {
 	// not memoised: keyed by function it would keep every analysed program alive (the controls battery loads thousands)
-	var res *accessorInfo
-	if len(f.Blocks) != 1 || len(f.Params) == 0 || f.Pkg == nil || f.Pkg.Pkg.Path() == "sync/atomic" {
+	if len(f.Blocks) == 0 || len(f.Blocks) > 6 || len(f.Params) == 0 || f.Pkg == nil || f.Pkg.Pkg.Path() == "sync/atomic" {
 		return nil
 	}
 	if _, isPtr := f.Params[0].Type().Underlying().(*types.Pointer); !isPtr {
 		return nil
 	}
+	// one atomic operation on a field of the receiver and one return of its result; besides that only sanity checks
+	// that panic (nil receiver, nil loaded pointer): tests of the receiver / the result against nil whose other edge panics
 	var call ssa.CallInstruction
 	var found *accessorInfo
-	for _, in := range f.Blocks[0].Instrs {
-		switch x := in.(type) {
-		case *ssa.FieldAddr, *ssa.Convert, *ssa.ChangeType, *ssa.DebugRef:
-		case *ssa.Call:
-			if call != nil {
-				return nil
-			}
-			op, addr, ok := rawAtomicOp(x)
-			if !ok {
-				return nil
-			}
-			base := addr
-			for {
-				fa, ok := base.(*ssa.FieldAddr)
-				if !ok {
-					break
-				}
-				base = fa.X
-			}
-			if base != ssa.Value(f.Params[0]) || base == addr {
-				return nil
-			}
-			for _, a := range x.Call.Args[1:] {
-				switch StripConv(a).(type) {
-				case *ssa.Parameter, *ssa.Const:
-				default:
+	nRet := 0
+	for _, b := range f.Blocks {
+		for _, in := range b.Instrs {
+			switch x := in.(type) {
+			case *ssa.FieldAddr, *ssa.Convert, *ssa.ChangeType, *ssa.DebugRef, *ssa.Jump:
+			case *ssa.MakeInterface:
+				if _, isC := x.X.(*ssa.Const); !isC {
 					return nil
 				}
-			}
-			call = x
-			found = &accessorInfo{op, addr, x}
-		case *ssa.Return:
-			for _, r := range x.Results {
-				if call == nil || StripConv(r) != call.Value() {
-					if ex, ok := StripConv(r).(*ssa.Extract); !ok || call == nil || ex.Tuple != call.Value() {
+			case *ssa.Panic:
+				if len(f.Blocks) == 1 {
+					return nil
+				}
+			case *ssa.BinOp:
+				if (x.Op != token.EQL && x.Op != token.NEQ) || !(IsNilConst(x.X) || IsNilConst(x.Y)) {
+					return nil
+				}
+			case *ssa.If:
+				if _, isCmp := x.Cond.(*ssa.BinOp); !isCmp {
+					return nil
+				}
+			case *ssa.Call:
+				if call != nil {
+					return nil
+				}
+				op, addr, ok := rawAtomicOp(x)
+				if !ok {
+					return nil
+				}
+				base := addr
+				for {
+					fa, ok := base.(*ssa.FieldAddr)
+					if !ok {
+						break
+					}
+					base = fa.X
+				}
+				if base != ssa.Value(f.Params[0]) || base == addr {
+					return nil
+				}
+				for _, a := range x.Call.Args[1:] {
+					switch StripConv(a).(type) {
+					case *ssa.Parameter, *ssa.Const:
+					default:
 						return nil
 					}
 				}
+				call = x
+				found = &accessorInfo{op, addr, x}
+			case *ssa.Return:
+				nRet++
+				for _, r := range x.Results {
+					if call == nil || StripConv(r) != call.Value() {
+						if ex, ok := StripConv(r).(*ssa.Extract); !ok || call == nil || ex.Tuple != call.Value() {
+							return nil
+						}
+					}
+				}
+			default:
+				return nil
 			}
-		default:
+		}
+	}
+	if nRet != 1 || found == nil {
+		return nil
+	}
+	// the operation is on every path to the return
+	if len(f.Blocks) > 1 {
+		var retBlock *ssa.BasicBlock
+		for _, b := range f.Blocks {
+			if _, ok := b.Instrs[len(b.Instrs)-1].(*ssa.Return); ok {
+				retBlock = b
+			}
+		}
+		if retBlock == nil || !(call.Block() == retBlock || call.Block().Dominates(retBlock)) {
 			return nil
 		}
 	}
-	res = found
-	return res
+	return found
 }
 
 func rawAtomicOp(c ssa.CallInstruction) (op string, addr ssa.Value, ok bool) {
